@@ -365,7 +365,16 @@ pub fn feature_doc(rng: &mut Rng, many_patterns: bool, allow_random: bool) -> St
 
 /// Documents which must fail, with the reason class.
 pub fn failing_doc(rng: &mut Rng) -> (String, &'static str) {
-    match rng.below(12) {
+    match rng.below(14) {
+        // several attributes of one element break a limit: the report must name the same one every time
+        12 => (
+            "<svg><config var-limit=\"10\"/><rect id=\"a\" wh=\"1\"/><reuse href=\"#a\" foo=\"aaaaaaaaaaaaaaaaaaaa\" bar=\"bbbbbbbbbbbbbbbbbbbbbbbbb\" baz=\"cccccccccccccccccc\" qux=\"dddddddddddddddd\"/></svg>".to_string(),
+            "multi-attr-limit",
+        ),
+        13 => (
+            "<svg><config var-limit=\"8\"/><var a=\"aaaaaaaaaaaa\" b=\"bbbbbbbbbbbbbbb\" c=\"cccccccccccc\" d=\"{{(1}}\" e=\"{{foo(2)}}\"/></svg>".to_string(),
+            "multi-attr-limit",
+        ),
         // late failures: the document evaluates, the root element cannot be finalised
         9 => ("<!-- c --><svg width=\"wide\"><rect wh=\"5\" text=\"x\"/></svg>".to_string(), "late-root-width"),
         10 => ("<svg height=\"1-2cm\"><rect wh=\"5\"/><circle cxy=\"^@br\" r=\"2\"/></svg>".to_string(), "late-root-height"),
